@@ -145,8 +145,21 @@ func TestVerifC01(t *testing.T) {
 					t.Fatal(err)
 				}
 			}
+			// fresh tx objects (new nonces) per run: tasks of an earlier run that returned an error
+			// may still be finishing in the background and must not log into this run's events
+			b.seqs = b.seqs[:0]
+			runTxs := make([]*chain.Transaction, len(b.specs))
+			for i, sp := range b.specs {
+				seq++
+				tx, err := buildTx(sp, c01BlockTime, genesis.NewDefaultRules().ValidityWindow, seq, i%3 == 0)
+				if err != nil {
+					t.Fatal(err)
+				}
+				runTxs[i] = tx
+				b.seqs = append(b.seqs, seq)
+			}
 			hEventsStart()
-			out, root, hung := c01Execute(ctx, metrics, b, cores, fetch)
+			out, root, hung := c01Execute(ctx, metrics, b, runTxs, cores, fetch)
 			events := hEventsStop()
 			r.Emit(l, out)
 			if msg := c01CheckOverlap(b, events); msg != "" {
@@ -181,6 +194,7 @@ func TestVerifC01(t *testing.T) {
 			r.Emit(l, "bad-op")
 		}
 	}
+	hCompleted = true
 }
 
 // c01CheckOverlap evaluates the executor guarantee C01 imports, on the observed run: for txs
@@ -268,14 +282,14 @@ func showExecOutput(ctx context.Context, out *chain.OutputBlock) string {
 		dimsStr(out.ExecutionResults.UnitPrices, "."), dimsStr(out.ExecutionResults.UnitsConsumed, "."))
 }
 
-func c01Execute(ctx context.Context, metrics *chain.ChainMetrics, b *c01Block, cores, fetch int) (string, ids.ID, bool) {
+func c01Execute(ctx context.Context, metrics *chain.ChainMetrics, b *c01Block, txs []*chain.Transaction, cores, fetch int) (string, ids.ID, bool) {
 	rules := hRules(b.prices, b.maxUnits, b.maxUnits)
 	root, err := b.db.GetMerkleRoot(ctx)
 	if err != nil {
 		return "err-root", ids.Empty, false
 	}
 	// fresh tx objects are not needed: Transaction caches only its state keys
-	blk, err := chain.NewStatelessBlock(ids.Empty, c01BlockTime, 1, b.txs, root, &block.Context{})
+	blk, err := chain.NewStatelessBlock(ids.Empty, c01BlockTime, 1, txs, root, &block.Context{})
 	if err != nil {
 		return "err-block", ids.Empty, false
 	}
@@ -455,7 +469,11 @@ func c01Generate(r *verifh.Run) []string {
 		}
 	}
 	priceChoices := []string{"100,100,100,100,100", "1,1,1,1,1", "1,2,3,4,5", "0,0,0,0,0", "1000,1,1,1,1"}
-	for n := r.N(260, 6000); n > 0; n-- {
+	nblocks := r.N(260, 2500)
+	if hRace {
+		nblocks = r.N(60, 250)
+	}
+	for n := nblocks; n > 0; n-- {
 		ntx := rng.Intn(41)
 		if rng.Chance(10) {
 			ntx = rng.Intn(4)
